@@ -14,7 +14,7 @@ from .c01 import parser_errors
 
 PROPERTY = 'C14'
 LEVEL = 'exploration'
-RULE = ('random C01-grammar programs x layout catalogue {random whitespace at token boundaries, tight (no optional whitespace, none between a keyword and an adjacent bracket), comparison after 'if' without its redundant parentheses, spaces '
+RULE = ('random C01-grammar programs x layout catalogue {random whitespace at token boundaries, tight (no optional whitespace, none between a keyword and an adjacent bracket), comparison after `if` without its redundant parentheses, spaces '
         'inside {..} <..> [..], whitespace between a term and its index bracket (both sides of =), explicit [0], comment and blank-line '
         'insertion, parenthesise-and-break at every operator (with trailing comments), statement permutation} and random compositions; '
         'statement-by-statement merge; normal-form fixed point. non-trivial = distinct (script variant) whose text differs from the canonical rendering')
